@@ -247,9 +247,10 @@ NProps(p) == IF "Props" \in DOMAIN p.v THEN Len(p.v["Props"]) ELSE 0
 BuildOnly(t) ==
   IF t = 10 THEN {[t |-> 10, fl |-> 2, v |-> [PacketID |-> 5, Props |-> <<>>, Filters |-> fs]] :
                     fs \in {<<Txt(3), <<>>, Txt(2)>>, <<<<>>>>, <<Txt(1), <<>>>>, <<<<>>, Txt(2), <<>>, Txt(4)>>,
-                            <<Txt(3), <<>>, Txt(4)>>, <<Txt(2), <<>>, Txt(5)>>}}
+                            <<Txt(3), <<>>, Txt(4)>>, <<Txt(2), <<>>, Txt(5)>>, <<Txt(6), <<>>>>}}
   ELSE IF t = 8 THEN {[t |-> 8, fl |-> 2, v |-> [PacketID |-> 5, Props |-> <<>>, Filters |-> fs]] :
-                    fs \in {<< <<Txt(3), 1>>, <<<<>>, 0>>, <<Txt(2), 2>> >>, << <<<<>>, 1>> >>}}
+                    fs \in {<< <<Txt(3), 1>>, <<<<>>, 0>>, <<Txt(2), 2>> >>, << <<<<>>, 1>> >>,
+                            << <<Txt(5), 1>>, <<<<>>, 0>> >>, << <<Txt(9), 2>>, <<<<>>, 1>>, <<<<>>, 0>> >>}}
   ELSE {}
 WillNProps(p) == IF "WillProps" \in DOMAIN p.v THEN Len(p.v["WillProps"]) ELSE 0
 BaseForMutants(t) ==
@@ -294,6 +295,10 @@ MutantCases ==
              \* a subscription identifier where MQTT allows none, its integer cut short or five bytes long
              \cup {[kind |-> "badsubid", t |-> t, val |-> val, tail |-> tl] :
                   val \in {<<128>>, <<128, 128>>, <<255, 255, 255, 255, 127>>, <<255, 255, 255, 128, 1>>}, tl \in {<<>>, <<38, 0, 1, 98, 0, 1, 98>>}}
+             \* a user property whose key / value is not well-formed UTF-8, as the last and as the first property
+             \cup {[kind |-> "badutf8", p |-> p, pos |-> pos, key |-> ky, val |-> vl] :
+                  p \in SweepBase(t), pos \in 1..2, ky \in {<<255, 97, 255>>, <<192, 128>>, <<237, 160, 128, 255>>, <<97>>},
+                  vl \in {<<>>, <<255>>, <<98, 254, 99, 254>>}}
              \* a property repeated (protocol error, verdict "either"): same value, zero / empty value, both orders
              \cup UNION {{[kind |-> "dupprop", p |-> p, pos |-> pos, zero |-> z, first |-> fs] :
                             pos \in 1..NProps(p), z \in BOOLEAN, fs \in BOOLEAN} : p \in {q \in base : NProps(q) \in 1..2}}
@@ -319,6 +324,7 @@ MutantFrame(m) ==
                 body == SubSeq(f, d.hdr + 1, x.s - 1) \o Pad5(val, m.b5) \o SubSeq(f, x.e + 1, Len(f))
             IN <<f[1]>> \o VBI(Len(body)) \o body
   ELSE IF m.kind = "foreign" THEN Encode(WithProp(m.p, m.pos, PV(m.id, SampleVal(m.id))))
+  ELSE IF m.kind = "badutf8" THEN Encode(WithProp(m.p, m.pos, PV(38, <<m.key, m.val>>)))
   ELSE IF m.kind = "badsubid" THEN
        LET pre == IF m.t = 1 THEN <<0, 4, 77, 81, 84, 84, 5, 2, 0, 60>> ELSE IF m.t = 2 THEN <<0, 0>> ELSE IF m.t = 3 THEN <<0, 1, 97>>
                   ELSE IF m.t \in 4..7 THEN <<0, 1, 0>> ELSE IF m.t \in 8..11 THEN <<0, 1>> ELSE IF m.t \in {14, 15} THEN <<0>> ELSE <<>>
@@ -333,7 +339,7 @@ MutantFrame(m) ==
   ELSE IF m.kind = "prefix" THEN SubSeq(f, 1, m.at)
   ELSE <<f[1], 255, 255, 255, 255, m.b5>> \o SubSeq(f, d.hdr + 1, Len(f))
 
-MutantValid(m) == IF m.kind \in {"undef", "foreign"} THEN m.pos <= Len(m.p.v["Props"]) + 1
+MutantValid(m) == IF m.kind \in {"undef", "foreign", "badutf8"} THEN m.pos <= Len(m.p.v["Props"]) + 1
                   ELSE IF m.kind = "badsubid" THEN m.t \notin {12, 13}
                   ELSE TRUE
 
